@@ -45,11 +45,6 @@ func main() {
 	symFail := flag.Bool("symfail", false, "with -sym: explore read-failure outcomes")
 	flag.Parse()
 
-	if *symM == "pngchain" {
-		p, _ := Load(*repo, "")
-		debugPngChain(p)
-		return
-	}
 	if *symM != "" {
 		p, err := Load(*repo, "")
 		if err != nil {
